@@ -80,6 +80,33 @@ theorem sent_only_when_ready (ev : Nat) (env : Bytes) (s : S) (hs : (trySend ev 
 
 example : (trySend 5 [1, 2, 3] { p := { fresh 7 with ls := .READY, running := true } }).2 = .sent := by decide
 
+/-- **at_most_one_outstanding.**  For every history of one listener (any list of operations: output arriving in
+    any fragmentation, hand-over attempts, writable events, pipe capacity changes, a closed stdin, process state
+    changes, deaths, respawns) starting from a never-started listener:
+    * a held event implies the listener is BUSY and alive (`event.isSome → listener_state = BUSY ∧ pid ≠ 0`);
+    * in the output trace no event is handed over (`sent`) while an earlier one is still outstanding, i.e. has
+      neither reached the result handler nor been returned by an `EventRejectedEvent` (`okFrom false`);
+    * whenever the trace says an event is outstanding (`pendFrom false`), the listener does hold one.
+    Together with `sent_only_when_ready` (a hand-over happens only to a RUNNING ∧ READY listener, which becomes
+    BUSY) this is the statement's "never more than one unanswered event". -/
+theorem at_most_one_outstanding (h : Bytes → HRes) (ops : List Op) :
+    let s := exec h { p := initial } ops
+    (s.p.event.isSome = true → s.p.ls = .BUSY ∧ s.p.pid ≠ 0) ∧
+    okFrom false s.outs = true ∧
+    (pendFrom false s.outs = true → s.p.event.isSome = true) := by
+  have hi := inv_exec h ops _ inv_initial
+  exact ⟨hi.busy, hi.ok, hi.pend⟩
+
+/-- a history in which an event is handed over, answered, and a second one handed over -/
+example :
+    let s := exec defaultHandler { p := initial }
+      [.spawn 7, .pstate .running, .read [82, 69, 65, 68, 89, 10], .send 1 [1, 2],
+       .read [82, 69, 83, 85, 76, 84, 32, 50, 10, 79, 75, 82, 69, 65, 68, 89, 10], .send 2 [3]]
+    (s.outs.filter isSent) = [.sent 1, .sent 2] ∧ s.p.event = some 2 ∧ s.p.ls = .BUSY := by decide
+
+/-- the trace predicate does reject a double hand-over -/
+example : okFrom false [Out.sent 1, Out.sent 2] = false := by decide
+
 /-- in UNKNOWN every byte is swallowed: the state stays UNKNOWN and nothing is emitted -/
 theorem unknown_absorbs (h : Bytes → HRes) (a : Bytes) (s : S) (he : s.err = none) (hu : s.p.ls = .UNKNOWN) :
     (feed h a s).p.ls = .UNKNOWN ∧ (feed h a s).outs = s.outs ∧ (feed h a s).p.buf = [] ∨
@@ -144,5 +171,115 @@ theorem zero_length_result_eager :
     (feed defaultHandler [82, 69, 83, 85, 76, 84, 32, 48, 10] busy3).p.ls = .ACKNOWLEDGED ∧
     (feed defaultHandler [82, 69, 83, 85, 76, 84, 32, 48, 10] busy3).outs =
       [.handler (some 3) [], .lstate .BUSY .ACKNOWLEDGED, .rejected (some 3)] := by decide
+
+/-! ### the documented automaton on whole tokens -/
+
+/-- what a listener may write: `READY\n`, or a result line `RESULT <n>\n` followed by `n` bytes -/
+inductive Tok
+  | ready
+  | result (line payload : Bytes)
+
+def Tok.bytes : Tok → Bytes
+  | .ready => READY_FOR_EVENTS_TOKEN
+  | .result line payload => line ++ 10 :: payload
+
+/-- well-formed: the header line has no LF inside, starts with `RESULT ` and its number (Python `int`) is the
+    payload's length -/
+def Tok.Valid : Tok → Prop
+  | .ready => True
+  | .result line payload => ValidResult line payload
+
+/-- The documented state machine of docs/events.rst over whole tokens:
+    ACKNOWLEDGED -READY-> READY;  BUSY -RESULT-> result handler -> ACKNOWLEDGED (OK / FAIL) or UNKNOWN (handler error);
+    every token that is not the expected one -> UNKNOWN (returning the held event when BUSY); UNKNOWN absorbs.
+    (READY -> BUSY is not a token: it is the pool handing over an event, `trySend`.) -/
+def docStep (h : Bytes → HRes) (ls : LS) (ev : Option Nat) : Tok → LS × Option Nat × List Out
+  | .ready =>
+    match ls with
+    | .ACKNOWLEDGED => (.READY, none, [.lstate .ACKNOWLEDGED .READY])
+    | .READY => (.UNKNOWN, none, [.lstate .READY .UNKNOWN])
+    | .BUSY => (.UNKNOWN, none, [.lstate .BUSY .UNKNOWN, .rejected ev])
+    | .UNKNOWN => (.UNKNOWN, ev, [])
+  | .result _ payload =>
+    match ls with
+    | .ACKNOWLEDGED => (.UNKNOWN, none, [.lstate .ACKNOWLEDGED .UNKNOWN])
+    | .READY => (.UNKNOWN, none, [.lstate .READY .UNKNOWN])
+    | .BUSY => (resultLS h payload, none, resultOuts h ev payload)
+    | .UNKNOWN => (.UNKNOWN, ev, [])
+
+def docRun (h : Bytes → HRes) : LS → Option Nat → List Tok → LS × Option Nat × List Out
+  | ls, ev, [] => (ls, ev, [])
+  | ls, ev, t :: ts =>
+    let r := docStep h ls ev t
+    let r' := docRun h r.1 r.2.1 ts
+    (r'.1, r'.2.1, r.2.2 ++ r'.2.2)
+
+theorem tok_bytes_ne (t : Tok) : t.bytes ≠ [] := by
+  cases t <;> simp [Tok.bytes, READY_FOR_EVENTS_TOKEN]
+
+theorem setLE_self (p : Lst) : setLE p p.ls p.event = p := by cases p; rfl
+
+/-- one token, any listener state: the parser does what the documented automaton does -/
+theorem feed_token (h : Bytes → HRes) (t : Tok) (s : S) (he : s.err = none) (hb : Bnd s.p) (hv : t.Valid) :
+    feed h t.bytes s =
+      { p := setLE s.p (docStep h s.p.ls s.p.event t).1 (docStep h s.p.ls s.p.event t).2.1,
+        outs := s.outs ++ (docStep h s.p.ls s.p.event t).2.2, err := none } := by
+  have hunk : s.p.ls = .UNKNOWN → feed h t.bytes s =
+      { p := setLE s.p .UNKNOWN s.p.event, outs := s.outs ++ [], err := none } := by
+    intro hl
+    rw [tok_any_unknown h _ s he hb hl (tok_bytes_ne t)]
+    have : setLE s.p .UNKNOWN s.p.event = s.p := by rw [← hl]; exact setLE_self s.p
+    rw [this]; cases s; simp_all
+  cases t with
+  | ready =>
+    cases hl : s.p.ls <;> simp only [docStep, Tok.bytes]
+    · rw [tok_any_ready h _ s he hb hl (by simp [READY_FOR_EVENTS_TOKEN])]
+    · rw [tok_ready_busy h s he hb hl]
+    · rw [tok_ready_ack h s he hb hl]
+    · exact hunk hl
+  | result line payload =>
+    cases hl : s.p.ls <;> simp only [docStep, Tok.bytes]
+    · rw [tok_any_ready h _ s he hb hl (by simp)]
+    · rw [tok_result_busy h line payload s he hb hl hv]
+    · rw [tok_result_ack h line payload s he hb hl hv]
+    · exact hunk hl
+
+theorem feed_nil_bnd (h : Bytes → HRes) (s : S) (he : s.err = none) (hb : Bnd s.p) : feed h [] s = s := by
+  rw [feed_eq h [] s he, sapp_nil]
+  exact runHL_nil h _ s he hb.1
+
+theorem bnd_wf (p : Lst) (hb : Bnd p) : Wf p := by simp [Wf, hb.2.1, hb.2.2]
+
+/-- **matches_documented_automaton.**  From a token boundary, for every sequence of well-formed tokens — delivered
+    in one piece or, by `fragmentation_invariant`, in any fragmentation — the parser's listener state, held event and
+    outputs (state changes, result handler calls with exactly the payload bytes, rejections) are those of the
+    documented 4-state automaton run over the tokens, and the parser is again at a token boundary. -/
+theorem matches_documented_automaton (h : Bytes → HRes) : ∀ (toks : List Tok) (s : S), s.err = none → Bnd s.p →
+    (∀ t ∈ toks, t.Valid) →
+    feed h (toks.flatMap Tok.bytes) s =
+      { p := setLE s.p (docRun h s.p.ls s.p.event toks).1 (docRun h s.p.ls s.p.event toks).2.1,
+        outs := s.outs ++ (docRun h s.p.ls s.p.event toks).2.2, err := none }
+  | [], s, he, hb, _ => by
+    simp only [List.flatMap_nil, docRun, List.append_nil]
+    rw [feed_nil_bnd h s he hb, setLE_self]
+    cases s; simp_all
+  | t :: ts, s, he, hb, hv => by
+    have hvt : t.Valid := hv t (by simp)
+    have hvs : ∀ x ∈ ts, x.Valid := fun x hx => hv x (by simp [hx])
+    simp only [List.flatMap_cons]
+    rw [← fragmentation_invariant h t.bytes (ts.flatMap Tok.bytes) s he (bnd_wf _ hb), feed_token h t s he hb hvt]
+    have ih := matches_documented_automaton h ts
+      { p := setLE s.p (docStep h s.p.ls s.p.event t).1 (docStep h s.p.ls s.p.event t).2.1,
+        outs := s.outs ++ (docStep h s.p.ls s.p.event t).2.2, err := none } rfl (setLE_bnd _ _ _ hb) hvs
+    rw [ih]
+    simp [docRun, setLE, List.append_assoc]
+
+/-- a concrete run: READY, (event 3 handed over elsewhere), a result, READY again -/
+example : docRun defaultHandler .BUSY (some 3) [.result [82, 69, 83, 85, 76, 84, 32, 50] [79, 75], .ready] =
+    (.READY, none, [.handler (some 3) [79, 75], .lstate .BUSY .ACKNOWLEDGED, .lstate .ACKNOWLEDGED .READY]) := by decide
+
+example : (Tok.result [82, 69, 83, 85, 76, 84, 32, 50] [79, 75]).Valid := by
+  constructor <;> decide
+
 
 end Sv.Props.C10
